@@ -185,13 +185,13 @@ def hexDigitVal (c : Char) : Option Nat :=
   else if 'A' ≤ c ∧ c ≤ 'F' then some (c.toNat - 55)
   else none
 
-/-- after `\x{`: hexadecimal digits and `}`; the value must be a Unicode scalar value other than 0 -/
+/-- after `\x{`: hexadecimal digits and `}`; the value must be a Unicode scalar value -/
 def parseHex (s : List Char) : Except ReErr (EscTok × List Char) :=
   let (ds, r) := s.span fun c => (hexDigitVal c).isSome
   match r with
   | '}' :: r' =>
     let v := ds.foldl (fun a c => a * 16 + (hexDigitVal c).getD 0) 0
-    if ds.isEmpty || ds.length > 6 || v == 0 || !(Nat.isValidChar v) then .error (.syn "\\x value") else .ok (.lit (Char.ofNat v), r')
+    if ds.isEmpty || ds.length > 6 || !(Nat.isValidChar v) then .error (.syn "\\x value") else .ok (.lit (Char.ofNat v), r')
   | _ => .error (.syn "malformed \\x")
 
 /-- the text after a backslash, in dialect `d` -/
@@ -350,8 +350,8 @@ end
 def decodeUtf8 (bs : Bytes) : Option (List Char) :=
   (String.fromUTF8? (ByteArray.mk bs.toArray)).map String.toList
 
-/-- a whole pattern in dialect `d`; fuel: every recursive call consumes a character, `length + 1` suffices
-    (`Props/C18Parse.parse_total`) -/
+/-- a whole pattern in dialect `d`; fuel: `2 * length + 2` suffices for `parseSeq` (`Props/C18Parse.parseSeq_fuel`: an
+    opening `(` or `[` costs two units for one character), so the fuel error is never a result (`parse_total`) -/
 def parseCharsD (d : Dialect) (cs : List Char) : Except ReErr Pat :=
   match parseSeq d (2 * cs.length + 4) false [] [] cs with
   | .ok (p, _) => .ok p
